@@ -260,12 +260,34 @@ def r2_recording(ctx, F):
                 labs = [l for l in variant_names(sws) if c.bb in b.reach_under([(sws, l)])]
                 opv = b.val(c.args[2])
                 opname = opv.key[2] if opv.kind == 'agg' else repr(opv)
+
+                def built_under(l, live, depth=0):
+                    """variant names of the aggregates local l can hold when only `live` blocks run"""
+                    out = set()
+                    ds = [d for d in b.defs.get(l, []) if d[1] == 'call' or not d[2]['lhs']['p']]
+                    ds = [d for d in ds if d[0] in live] if len(ds) > 1 else ds
+                    for d in ds:
+                        rv = d[2]['rv'] if d[1] != 'call' else None
+                        if rv is not None and rv['k'] == 'agg' and rv.get('variant'):
+                            out.add(rv['variant'])
+                        elif rv is not None and rv['k'] == 'use' and rv['op'].get('k') in ('copy', 'move') and \
+                                not rv['op']['place']['p'] and depth < 6:
+                            out |= built_under(rv['op']['place']['l'], live, depth + 1)
+                        else:
+                            out.add('?')
+                    return out
                 tid = noref(b.val(c.args[1]))
                 hist = noref(b.trace(b.val(c.args[0]), ()))
                 hsrc = b.call_at(hist.key) if hist.kind == 'call' else None
                 cloned = hsrc is not None and hsrc.is_('Clone::clone') and noref(b.val(hsrc.args[0])) == V('arg', 2)
                 for l in labs:
-                    seen[l] = (opname, tid, cloned, c)
+                    name_l = opname
+                    if opv.kind == 'local' and not opv.projs:
+                        # the operation is chosen by a second match on the message: judge it per message kind
+                        vs = built_under(opv.key, b.reach_under([(sws, l)]))
+                        if len(vs) == 1 and '?' not in vs:
+                            name_l = next(iter(vs))
+                    seen[l] = (name_l, tid, cloned, c)
             for msgv, want in table.items():
                 got = seen.get(msgv)
                 ok = got is not None and got[0] == want
